@@ -145,8 +145,12 @@ Definition event_rx_on (s : core) : res * bool :=
           let s := set_efd (set_kern s k1) u (efd_raw s) in
           match k_pipe (kern s) with
           | (k2, Some (r, w)) =>
-              let s := do_close (set_kern s k2) w in
-              R (set_activefd s r (active_ref s))
+              (* the write end stays open and one byte makes the pipe readable *)
+              let '(k3, wr) := k_write k2 w 1 0 in
+              match wr with
+              | inl _ => R (set_activewr (set_activefd (set_kern s k3) r (active_ref s)) w)
+              | inr _ => halt (set_kern s k3) TFatal
+              end
           | (k2, None) => halt (set_kern s k2) TFatal
           end
       end
@@ -168,7 +172,10 @@ Definition event_rx_off (s : core) : res :=
   | Some _ => halt s TFatal
   | None =>
       let s := set_activefd s (active_fd s) (active_ref s - 1) in
-      let s := if active_ref s =? 0 then do_close s (active_fd s) else s in
+      let s := if active_ref s =? 0 then
+                 let s := do_close s (active_fd s) in
+                 if active_wr s =? -1 then s else set_activewr (do_close s (active_wr s)) (-1)
+               else s in
       R (set_numobjs s (numobjs s - 1))
   end.
 
@@ -221,49 +228,56 @@ Definition event_post (s : core) (j : Z) : core :=
 
 (* ---- actions (every action is guarded exactly as in harness/ivsim.c) ---- *)
 Definition do_action (s : core) (a : action) : res :=
+  let ex := emit s (TAct a) in                 (* the action is executed: log it first *)
   match a with
-  | AFdReg i => if registered (getfd s i) then R s else fd_register s i
+  | AFdReg i =>
+      if registered (getfd s i) then R s
+      else match k_open (kern s) (fdnum (getfd s i)) with
+           | Some _ => fd_register ex i
+           | None => R s
+           end
   | AFdTry i =>
       if registered (getfd s i) then R s else
-      let '(r, failed) := fd_register_try s i in
+      let '(r, failed) := fd_register_try ex i in
       bind r (fun s => R (emit s (TRes 0 i (if failed then -1 else 0))))
-  | AFdUnreg i => if registered (getfd s i) then fd_unregister s i else R s
-  | AFdSetH i band h => fd_set_handler s i band h
-  | AFdCookie i c => R (putfd s i (fd_with_cookie (getfd s i) c))
-  | AFdFresh i => if registered (getfd s i) then R s else R (putfd s i (fd_fresh (100 + i) i))
-  | AKSet i c => R (set_kern s (k_set_cond (kern s) i c))
-  | AKClose i => R (set_kern s (k_user_close (kern s) i))
-  | AKOpen i => R (set_kern s (k_user_fd (kern s) i))
+  | AFdUnreg i => if registered (getfd s i) then fd_unregister ex i else R s
+  | AFdSetH i band h => fd_set_handler ex i band h
+  | AFdCookie i c => R (putfd ex i (fd_with_cookie (getfd s i) c))
+  | AFdFresh i => if registered (getfd s i) then R s else R (putfd ex i (fd_fresh (100 + i) i))
+  | AKSet i c => R (set_kern ex (k_set_cond (kern s) i c))
+  | AKClose i => if registered (getfd s i) then R s else R (set_kern ex (k_user_close (kern s) i))
+  | AKOpen i => R (set_kern ex (k_user_fd (kern s) i))
   | ATmRegAbs j e =>
       if timer_registered s j then R s
-      else lift_heap s (HeapModel.register (HeapModel.set_exp (heap s) (tmid j) e) (tmid j))
+      else lift_heap ex (HeapModel.register (HeapModel.set_exp (heap s) (tmid j) e) (tmid j))
   | ATmRegRel j d =>
       if timer_registered s j then R s else
       let s := validate_now s in
-      lift_heap s (HeapModel.register (HeapModel.set_exp (heap s) (tmid j) (time s + d)) (tmid j))
-  | ATmUnreg j => if timer_registered s j then lift_heap s (HeapModel.unregister (heap s) (tmid j)) else R s
-  | ATmFresh j => R s
-  | ATkReg j => if task_registered s j then R s else R (task_register s j)
-  | ATkUnreg j => if task_registered s j then R (task_unregister s j) else R s
-  | ATkFresh j => if task_registered s j then R s else R (set_epoch s (epoch s) (upd (tepoch s) j (epoch s)))
+      let e := time s + d in
+      lift_heap (emit s (TAct (ATmRegAbs j e))) (HeapModel.register (HeapModel.set_exp (heap s) (tmid j) e) (tmid j))
+  | ATmUnreg j => if timer_registered s j then lift_heap ex (HeapModel.unregister (heap s) (tmid j)) else R s
+  | ATmFresh j => if timer_registered s j then R s else R ex
+  | ATkReg j => if task_registered s j then R s else R (task_register ex j)
+  | ATkUnreg j => if task_registered s j then R (task_unregister ex j) else R s
+  | ATkFresh j => if task_registered s j then R s else R (set_epoch ex (epoch s) (upd (tepoch s) j (epoch s)))
   | AEvReg j =>
       if ev_reg s j then R s else
-      let '(r, failed) := event_register s j in
+      let '(r, failed) := event_register ex j in
       bind r (fun s => R (emit s (TRes 1 j (if failed then -1 else 0))))
-  | AEvUnreg j => if ev_reg s j then event_unregister s j else R s
-  | AEvPost j => if ev_reg s j then R (event_post s j) else R s
-  | AEvFresh j => R s
+  | AEvUnreg j => if ev_reg s j then event_unregister ex j else R s
+  | AEvPost j => if ev_reg s j then R (event_post ex j) else R s
+  | AEvFresh j => if ev_reg s j then R s else R ex
   | ARwReg j =>
       if rw_reg s j then R s else
-      let '(r, failed) := raw_register s j in
+      let '(r, failed) := raw_register ex j in
       bind r (fun s => R (emit s (TRes 2 j (if failed then -1 else 0))))
-  | ARwUnreg j => if rw_reg s j then raw_unregister s j else R s
-  | ARwPost j => if rw_reg s j then R (raw_post s j) else R s
-  | ARwFresh j => R s
-  | AQuit => R (set_quit s true)
-  | AClockAdv d => R (set_kern s (k_set_clock (kern s) (clock (kern s) + d)))
-  | AInvalidate => R (invalidate_now s)
-  | AValidate => R (validate_now s)
+  | ARwUnreg j => if rw_reg s j then raw_unregister ex j else R s
+  | ARwPost j => if rw_reg s j then R (raw_post ex j) else R s
+  | ARwFresh j => if rw_reg s j then R s else R ex
+  | AQuit => R (set_quit ex true)
+  | AClockAdv d => R (set_kern ex (k_set_clock (kern s) (clock (kern s) + d)))
+  | AInvalidate => R (invalidate_now ex)
+  | AValidate => R (validate_now ex)
   end.
 
 Fixpoint run_acts (s : core) (l : list action) : res :=
@@ -416,10 +430,10 @@ Definition do_epoll_wait (s : core) (call maxev timeout : Z) : wres :=
   | R s =>
       let n := nwait (kern s) in
       let s := emit s (TWait n call maxev timeout (interest_of (kern s)) (ground (kern s))) in
-      if mem_z n (eintr_waits (flt (kern s))) then WE (emit s (TRet None (clock (kern s))))
+      if mem_z n (eintr_waits (flt (kern s))) then WE (emit s (TRet None [] (clock (kern s))))
       else match k_epoll_sleep (kern s) maxev timeout (sc_rot sc n) with
            | WReady k1 evs =>
-               WR (emit (set_kern s k1) (TRet (Some (Z.of_nat (length evs))) (clock k1))) evs
+               WR (emit (set_kern s k1) (TRet (Some (Z.of_nat (length evs))) (map (fun e => fst (fst e)) evs) (clock k1))) evs
            | WHang => WH (halt s THang)
            | WEintr k1 => WE (set_kern s k1)
            | WLimit => WH (halt s TLimit)
@@ -485,17 +499,23 @@ Definition interest_of_pfds (p : list (Z * Z)) : list (Z * Z * bool) :=
   map (fun e => (en_fd e, en_events e, true))
       (sort_ents (map (fun x => {| en_fd := fst x; en_events := snd x; en_data := 0; en_enabled := true |}) p)).
 
+Fixpoint reported_pfds (p : list (Z * Z)) (revs : list Z) : list Z :=
+  match p, revs with
+  | x :: p', r :: revs' => if r =? 0 then reported_pfds p' revs' else fst x :: reported_pfds p' revs'
+  | _, _ => []
+  end.
+
 Definition do_poll_wait (s : core) (call timeout : Z) : res * bool :=
   match wait_enter s with
   | Halt s => (Halt s, true)
   | R s =>
       let n := nwait (kern s) in
       let s := emit s (TWait n call (Z.of_nat (length (pfds s))) timeout (interest_of_pfds (pfds s)) (ground (kern s))) in
-      if mem_z n (eintr_waits (flt (kern s))) then (R (invalidate_now (emit s (TRet None (clock (kern s))))), true)
+      if mem_z n (eintr_waits (flt (kern s))) then (R (invalidate_now (emit s (TRet None [] (clock (kern s))))), true)
       else match k_poll_sleep (kern s) (pfds s) timeout with
            | PHang => (halt s THang, true)
            | PReady k1 revs =>
-               let s := emit (set_kern s k1) (TRet (Some (count_nonzero revs)) (clock k1)) in
+               let s := emit (set_kern s k1) (TRet (Some (count_nonzero revs)) (reported_pfds (pfds s) revs) (clock k1)) in
                (R (poll_activate (invalidate_now s) (pkeys s) revs), true)
            end
   end.
@@ -600,7 +620,7 @@ Definition core0 : core :=
   let '(efd, k) := if (m =? M_ET) || (m =? M_EP) then k_epoll_create k else (-1, k) in
   {| fdt := fun i => fd_fresh (100 + i) i; active := []; handled := None; numfds := 0;
      last_abs := 0; last_abs_count := 0; method := m; notify := []; epfd := efd; tfd := -1;
-     pwait2 := true; efd_epoll := 2; efd_raw := 2; active_fd := 0; active_ref := 0;
+     pwait2 := true; efd_epoll := 2; efd_raw := 2; active_fd := 0; active_ref := 0; active_wr := -1;
      pfds := []; pkeys := []; quit := false; numobjs := 0; heap := HeapModel.init; time := 0;
      time_valid := false; tasks := []; cur := None; epoch := 0; tepoch := fun _ => 0;
      ev_pending := []; ev_batch := []; ev_count := 0; ev_reg := fun _ => false; use_raw := false;
@@ -628,7 +648,7 @@ Definition deinit (s : core) : core :=
 Definition run_scenario : list tev :=
   let r :=
     bind (run_acts core0 (sc_setup sc)) (fun s =>
-    bind (main_loop (Z.to_nat (sc_limit sc) + 2) (set_quit s false) true) (fun s =>
+    bind (main_loop (Z.to_nat (sc_limit sc) + 2) (set_quit (emit s TMain) false) true) (fun s =>
     let s := emit s (TEnd (if quit s then 1 else 0) (numobjs s)) in
     bind (teardown s (zseq 0 16)) (fun s =>
     let s := emit s (TTear (numobjs s)) in
